@@ -583,12 +583,29 @@ func (s *Service) StopAndWait(ctx context.Context, pipelineID string) error {
 }
 
 // buildsNodes will build new nodes that will be assigned to the pipeline.Instance.
-func (s *Service) buildNodes(ctx context.Context, pl *pipeline.Instance) ([]stream.Node, error) {
+func (s *Service) buildNodes(ctx context.Context, pl *pipeline.Instance) (_ []stream.Node, err error) {
+	// A processor is reserved as running and its plugin dispensed as soon as
+	// its node is built (MakeRunnableProcessor). If the build fails further on
+	// no node will ever run and tear it down, so they are released here -
+	// otherwise Update, Delete and the next start are refused with "processor
+	// already running".
+	var built []*processor.RunnableProcessor
+	defer func() {
+		if err == nil {
+			return
+		}
+		for _, proc := range built {
+			if tdErr := proc.Teardown(ctx); tdErr != nil {
+				s.logger.Err(ctx, tdErr).Str(log.PipelineIDField, pl.ID).Msg("could not tear down processor of a pipeline that failed to build")
+			}
+		}
+	}()
+
 	// setup many to many channels
 	fanIn := stream.FaninNode{Name: "fanin"}
 	fanOut := stream.FanoutNode{Name: "fanout"}
 
-	sourceNodes, err := s.buildSourceNodes(ctx, pl, &fanIn)
+	sourceNodes, err := s.buildSourceNodes(ctx, pl, &fanIn, &built)
 	if err != nil {
 		return nil, cerrors.Errorf("could not build source nodes: %w", err)
 	}
@@ -596,12 +613,12 @@ func (s *Service) buildNodes(ctx context.Context, pl *pipeline.Instance) ([]stre
 		return nil, cerrors.New("can't build pipeline without any source connectors")
 	}
 
-	processorNodes, err := s.buildProcessorNodes(ctx, pl, pl.ProcessorIDs, &fanIn, &fanOut)
+	processorNodes, err := s.buildProcessorNodes(ctx, pl, pl.ProcessorIDs, &fanIn, &fanOut, &built)
 	if err != nil {
 		return nil, cerrors.Errorf("could not build processor nodes: %w", err)
 	}
 
-	destinationNodes, err := s.buildDestinationNodes(ctx, pl, &fanOut)
+	destinationNodes, err := s.buildDestinationNodes(ctx, pl, &fanOut, &built)
 	if err != nil {
 		return nil, cerrors.Errorf("could not build destination nodes: %w", err)
 	}
@@ -650,6 +667,7 @@ func (s *Service) buildProcessorNodes(
 	processorIDs []string,
 	first stream.PubNode,
 	last stream.SubNode,
+	built *[]*processor.RunnableProcessor, // collects every processor reserved here
 ) ([]stream.Node, error) {
 	var nodes []stream.Node
 
@@ -664,6 +682,7 @@ func (s *Service) buildProcessorNodes(
 		if err != nil {
 			return nil, err
 		}
+		*built = append(*built, runnableProc)
 
 		var node stream.PubSubNode
 		if instance.Config.Workers > 1 {
@@ -712,6 +731,7 @@ func (s *Service) buildSourceNodes(
 	ctx context.Context,
 	pl *pipeline.Instance,
 	next stream.SubNode,
+	built *[]*processor.RunnableProcessor,
 ) ([]stream.Node, error) {
 	var nodes []stream.Node
 
@@ -748,7 +768,7 @@ func (s *Service) buildSourceNodes(
 		metricsNode := s.buildMetricsNode(pl, instance)
 		metricsNode.Sub(ackerNode.Pub())
 
-		procNodes, err := s.buildProcessorNodes(ctx, pl, instance.ProcessorIDs, metricsNode, next)
+		procNodes, err := s.buildProcessorNodes(ctx, pl, instance.ProcessorIDs, metricsNode, next, built)
 		if err != nil {
 			return nil, cerrors.Errorf("could not build processor nodes for connector %s: %w", instance.ID, err)
 		}
@@ -849,6 +869,7 @@ func (s *Service) buildDestinationNodes(
 	ctx context.Context,
 	pl *pipeline.Instance,
 	prev stream.PubNode,
+	built *[]*processor.RunnableProcessor,
 ) ([]stream.Node, error) {
 	var nodes []stream.Node
 
@@ -882,7 +903,7 @@ func (s *Service) buildDestinationNodes(
 		destinationNode.Sub(metricsNode.Pub())
 		ackerNode.Sub(destinationNode.Pub())
 
-		connNodes, err := s.buildProcessorNodes(ctx, pl, instance.ProcessorIDs, prev, metricsNode)
+		connNodes, err := s.buildProcessorNodes(ctx, pl, instance.ProcessorIDs, prev, metricsNode, built)
 		if err != nil {
 			return nil, cerrors.Errorf("could not build processor nodes for connector %s: %w", instance.ID, err)
 		}
